@@ -61,6 +61,7 @@ type Case struct {
 	Prop string `json:"prop"`
 	Cfg  Config `json:"cfg"`
 	Ops  []Op   `json:"ops"`
+	Noise []Op  `json:"noise,omitempty"` // C18: requests that must be rejected, interleaved with Ops
 	Note string `json:"note,omitempty"`
 }
 
